@@ -234,10 +234,128 @@ impl Prop for NewGame {
     }
 }
 
+// ------------------------------------------------- many positions per game, several pool sizes
+
+/// RAYON_NUM_THREADS values (None = the machine's default)
+pub const POOLS: [Option<u32>; 8] = [None, Some(1), Some(2), Some(3), Some(5), Some(6), Some(12), Some(24)];
+
+#[derive(Debug, Clone, Serialize, Deserialize)]
+pub struct ManyCase {
+    pub targets: Vec<u32>,
+    pub pool: u8,
+    pub mirror: bool,
+    /// game 1 searches P itself after its successor, this much deeper than game 2 will
+    pub first_game_extra_depth: u8,
+}
+
+pub struct NewGameMany;
+
+impl Prop for NewGameMany {
+    type Case = ManyCase;
+    fn name(&self) -> &'static str {
+        "ucinewgame_many_positions"
+    }
+    fn parallelism(&self, ctx: &Ctx) -> usize {
+        ctx.threads.min(4)
+    }
+    fn max_shrink_iters(&self) -> u32 {
+        20
+    }
+    fn max_shrink_time_ms(&self) -> u32 {
+        180_000
+    }
+    fn strategy(&self, _: &Ctx) -> BoxedStrategy<ManyCase> {
+        (prop::collection::vec(any::<u32>(), 8..=48), 0u8..(POOLS.len() as u8), any::<bool>(), 0u8..=2)
+            .prop_map(|(targets, pool, mirror, first_game_extra_depth)| ManyCase { targets, pool, mirror, first_game_extra_depth })
+            .boxed()
+    }
+    fn test(&self, _: &Ctx, case: &ManyCase, loc: &mut Local) -> Result<(), String> {
+        let t = targets();
+        let env: Vec<(&str, String)> = match POOLS[case.pool as usize % POOLS.len()] {
+            Some(n) => vec![("RAYON_NUM_THREADS", n.to_string())],
+            None => vec![],
+        };
+        // distinct targets, every second one a mate in 1
+        let ones: Vec<usize> = t.list.iter().enumerate().filter(|(_, x)| x.1 == 1).map(|x| x.0).collect();
+        let mut chosen: Vec<usize> = vec![];
+        for (j, pick) in case.targets.iter().enumerate() {
+            let idx = if j % 2 == 0 && !ones.is_empty() { ones[(*pick as usize) % ones.len()] } else { *pick as usize % t.list.len() };
+            if !chosen.contains(&idx) {
+                chosen.push(idx);
+            }
+        }
+        let items: Vec<(Pos, Pos, String, u32)> = chosen
+            .iter()
+            .map(|i| {
+                let (p0, n, _, s0) = &t.list[*i];
+                let (p, succ) = if case.mirror { (p0.mirror(), s0.mirror()) } else { (p0.clone(), s0.clone()) };
+                let m = p.legal().into_iter().find(|(_, s)| s.fen4() == succ.fen4()).map(|x| x.0.lan()).unwrap_or_default();
+                (p, succ, m, *n)
+            })
+            .collect();
+        let mut u = Uci::spawn_env(&env)?;
+        // game 1: the successor becomes a search root (recorded), then P itself is searched: with the
+        // mating move valued as a repetition its table entries say "no mate here"
+        let mut avoided = 0usize;
+        for (p, succ, m, n) in items.iter() {
+            u.send(&format!("position fen {}", succ.fen()));
+            u.send("go depth 1");
+            if succ.has_legal_move() {
+                if u.wait_out_prefix(Duration::from_secs(60), "bestmove").is_none() {
+                    return Err(format!("go on '{}' was not answered\n{}", succ.fen(), u.transcript()));
+                }
+            } else {
+                u.send("isready");
+                if u.wait_out(Duration::from_secs(60), "readyok").is_none() {
+                    return Err(format!("isready was not answered\n{}", u.transcript()));
+                }
+            }
+            let (score, best) = ask(&mut u, p, *n + case.first_game_extra_depth as u32)?;
+            loc.eval();
+            if !(score.map(|s| s >= 10_000.0).unwrap_or(false) && best.as_deref() == Some(m.as_str())) {
+                avoided += 1;
+            }
+        }
+        u.send("ucinewgame");
+        u.send("isready");
+        if u.wait_out(Duration::from_secs(60), "readyok").is_none() {
+            return Err(format!("isready after ucinewgame was not answered\n{}", u.transcript()));
+        }
+        // game 2: every P again; the answer must be the one a fresh process gives
+        for (p, _, m, n) in items.iter() {
+            let (score, best) = ask(&mut u, p, *n)?;
+            loc.eval();
+            if !(score.map(|s| s >= 10_000.0).unwrap_or(false) && best.as_deref() == Some(m.as_str())) {
+                // control: a freshly started process with the same pool size
+                let mut c = Uci::spawn_env(&env)?;
+                let (cscore, cbest) = ask(&mut c, p, *n)?;
+                drop(c);
+                if cscore.map(|s| s >= 10_000.0).unwrap_or(false) && cbest.as_deref() == Some(m.as_str()) {
+                    return Err(format!(
+                        "after ucinewgame, 'go depth {}' on '{}' reports score cp {:?} and bestmove {:?}; a freshly started process (same pool size {:?}) reports {:?} and {:?} (mate in {} plies only by {}). In the previous game of this session {} positions, this one among them, were searched after their mating successor. Positions searched before ucinewgame still influence the answer.\n{}",
+                        n, p.fen(), score, best, POOLS[case.pool as usize % POOLS.len()], cscore, cbest, n, m, items.len(), u.transcript()
+                    ));
+                }
+                loc.class("many:control_missed_mate_discarded");
+            }
+        }
+        u.send("quit");
+        let _ = u.wait_exit(Duration::from_secs(30));
+        loc.class(match POOLS[case.pool as usize % POOLS.len()] { None => "many:default_pool", Some(1) => "many:pool_1", Some(n) if n.is_power_of_two() => "many:pool_power_of_two", _ => "many:pool_other" });
+        if avoided > 0 {
+            // the first game really produced "no mate" answers for positions asked again later
+            loc.class("many:first_game_avoided_the_mate_somewhere");
+            loc.nontrivial(&format!("{:?}", case));
+        }
+        loc.sample(|| json!({"positions": items.len(), "pool": POOLS[case.pool as usize % POOLS.len()], "first_game_mates_avoided": avoided}));
+        Ok(())
+    }
+}
+
 pub fn plan(ctx: &Ctx) -> Plan {
     let t = ctx.tier;
     Plan {
-        props: vec![(Box::new(NewGame), t.pick(60, 2_500))],
+        props: vec![(Box::new(NewGame), t.pick(60, 2_500)), (Box::new(NewGameMany), t.pick(16, 600))],
         rule: "P = tablebase position (also colour-mirrored) with a mate in n = 1 or 3 plies through exactly one first move \
                m, every other first move needing at least n + 6 plies (every second case uses one of the rare n = 1 \
                targets, whose recorded successor is a mated root). Session: 1-5 x (position fen X, go depth 1-3, then \
@@ -247,7 +365,11 @@ pub fn plan(ctx: &Ctx) -> Plan {
                m, exactly what a freshly started control process answers for the same two commands; a case whose control \
                run misses the mate is discarded and counted (that would be C06's business). Non-trivial = distinct \
                sessions in which succ(P,m) was a search root before ucinewgame and that search's artifact had been \
-               collected (by stop, position or a later go).",
+               collected (by stop, position or a later go). Second part (ucinewgame_many_positions): one session, worker \
+               pool size RAYON_NUM_THREADS in {default, 1, 2, 3, 5, 6, 12, 24}: game 1 = for each of 8-48 targets, go depth 1 \
+               on succ(P,m) and then go depth n..n+2 on P (the mate is then a repetition, the table says 'no mate'); \
+               ucinewgame; game 2 = go depth n on every P: each answer must be the unique mate, unless a fresh process of \
+               the same pool size misses it too (discarded, counted).",
         assumptions: &[
             "the oracle is seed-independent (the UCI client seeds itself from the OS); by C06 a fresh process finds these mates for every seed",
             "stale transposition-table content that does not change the answer is not observable by this oracle",
